@@ -39,6 +39,7 @@ type HarnessResult struct {
 	WallS       float64
 	Truncated   bool
 	FnInstr     map[string]int
+	ForkSites   map[string]int
 }
 
 func newExec(w *World, cfg *Config) (*Exec, error) {
@@ -56,7 +57,13 @@ func newExec(w *World, cfg *Config) (*Exec, error) {
 	return ex, nil
 }
 
-func (ex *Exec) resetPath(prefix []int) {
+func (ex *Exec) resetPath(item WorkItem) {
+	prefix := item.Prefix
+	ex.startModel = item.Model
+	ex.model = nil
+	if len(prefix) == 0 {
+		ex.setModel(map[string]uint64{})
+	}
 	ex.pc = ex.pc[:0]
 	ex.prefix = prefix
 	ex.pos = 0
@@ -83,12 +90,14 @@ func (ex *Exec) resetPath(prefix []int) {
 	ex.schedLog = nil
 	ex.fpAxDone = map[string]bool{}
 	ex.fpApps = nil
-	ex.res = &PathResult{Funcs: map[string]int{}, Intercepts: map[string]int{}}
+	ex.bind = map[int]*Term{}
+	ex.substMemo = map[int]*Term{}
+	ex.res = &PathResult{Funcs: map[string]int{}, Intercepts: map[string]int{}, ForkSites: map[string]int{}}
 }
 
 // runPath executes the harness once following prefix, then the first feasible alternative at each new fork.
-func (ex *Exec) runPath(entry *ssa.Function, prefix []int) (res *PathResult) {
-	ex.resetPath(prefix)
+func (ex *Exec) runPath(entry *ssa.Function, item WorkItem) (res *PathResult) {
+	ex.resetPath(item)
 	res = ex.res
 	defer func() {
 		res.Steps = ex.steps
@@ -152,11 +161,13 @@ func (ex *Exec) panicViolationKind(kind, msg string) {
 // explore runs all paths of one harness with nw workers.
 func explore(w *World, cfg *Config, entry *ssa.Function, nw int, deadline time.Time) (*HarnessResult, error) {
 	hr := &HarnessResult{Name: cfg.Name, Cfg: cfg, AbortMsgs: map[string]int{}, Reached: map[string]int{},
-		Funcs: map[string]int{}, Intercepts: map[string]int{}, Assumes: map[string]bool{}, FnInstr: map[string]int{}}
+		Funcs: map[string]int{}, Intercepts: map[string]int{}, Assumes: map[string]bool{}, FnInstr: map[string]int{}, ForkSites: map[string]int{}}
 	t0 := time.Now()
+	lastProg := t0
+	progress := os.Getenv("VERIF_PROGRESS") != ""
 	var mu sync.Mutex
 	cond := sync.NewCond(&mu)
-	work := [][]int{nil}
+	work := []WorkItem{{}}
 	active := 0
 	stop := false
 	var wg sync.WaitGroup
@@ -228,6 +239,9 @@ func explore(w *World, cfg *Config, entry *ssa.Function, nw int, deadline time.T
 				for k, v := range res.Intercepts {
 					hr.Intercepts[k] += v
 				}
+				for k, v := range res.ForkSites {
+					hr.ForkSites[k] += v
+				}
 				for _, a := range res.Assumes {
 					hr.Assumes[a] = true
 				}
@@ -238,6 +252,10 @@ func explore(w *World, cfg *Config, entry *ssa.Function, nw int, deadline time.T
 					hr.Violations = append(hr.Violations, res.Violations...)
 				}
 				work = append(work, ex.pending...)
+				if progress && time.Since(lastProg) > 15*time.Second {
+					lastProg = time.Now()
+					fmt.Fprintf(os.Stderr, "    [%s] %.0fs paths=%d queue=%d aborted=%d viol=%d\n", cfg.Name, time.Since(t0).Seconds(), hr.Paths, len(work), hr.Aborted, len(hr.Violations))
+				}
 				if hr.Paths >= cfg.MaxPaths || time.Now().After(deadline) {
 					hr.Truncated = true
 					stop = true
@@ -300,9 +318,9 @@ func selfReplay(w *World, cfg *Config, entry *ssa.Function, v *Violation) (bool,
 	ex.concrete = v.Model
 	ex.replayMode = true
 	ex.replaySched = v.Sched
-	res := ex.runPath(entry, nil)
+	res := ex.runPath(entry, WorkItem{})
 	for _, rv := range res.Violations {
-		if rv.Kind == v.Kind && rv.Msg == v.Msg {
+		if rv.Kind == v.Kind && (rv.Msg == v.Msg || (v.Kind != "assert" && normMsg(rv.Msg) == normMsg(v.Msg))) {
 			return true, ""
 		}
 	}
@@ -311,4 +329,29 @@ func selfReplay(w *World, cfg *Config, entry *ssa.Function, v *Violation) (bool,
 		detail += fmt.Sprintf(" [other violation %s: %s]", rv.Kind, rv.Msg)
 	}
 	return false, detail
+}
+
+// normMsg strips values from run-time panic messages so symbolic and concrete runs compare equal.
+func normMsg(m string) string {
+	out := []byte{}
+	depth := 0
+	for i := 0; i < len(m); i++ {
+		c := m[i]
+		switch {
+		case c == '[':
+			depth++
+		case c == ']':
+			if depth > 0 {
+				depth--
+			}
+		case depth > 0:
+		case c >= '0' && c <= '9', c == '-':
+		case c == '(':
+			// drop trailing "(...)" qualifiers
+			return string(out)
+		default:
+			out = append(out, c)
+		}
+	}
+	return string(out)
 }
